@@ -425,6 +425,40 @@ pub fn run(ctx: &Ctx) -> (Stats, Report) {
             st.fail(k as u64, Case::new(P, "parse", vec![kind.index() as i128], vec![pic.to_string(), text.to_string()]), m);
         }
     }
+    // interval texts at the limits with the fields written in every order (the gate must not
+    // depend on which field the parser meets first): limit years / days x every month / boundary
+    // clock fields x sign
+    {
+        let mut texts: Vec<(Kind, String, String)> = vec![];
+        for y in [177_999_999i64, 178_000_000, 178_000_001] {
+            for m in 0..=12 {
+                for sign in ["", "-", "+"] {
+                    texts.push((Kind::YM, "YYYY-MM".into(), format!("{sign}{y}-{m:02}")));
+                    texts.push((Kind::YM, "MM-YYYY".into(), format!("{m:02}-{sign}{y}")));
+                    texts.push((Kind::YM, "MM YYYY".into(), format!("{sign}{m:02} {y}")));
+                    texts.push((Kind::YM, "MM/YYYY".into(), format!("{m}/{sign}{y}")));
+                }
+            }
+        }
+        for d in [99_999_999i64, 100_000_000, 100_000_001] {
+            for (h, mi, se, f) in [(0, 0, 0, "000000"), (0, 0, 0, "000001"), (0, 0, 1, "000000"), (0, 1, 0, "000000"), (1, 0, 0, "000000"), (23, 59, 59, "999999"), (0, 0, 0, "9999995")] {
+                for sign in ["", "-", "+"] {
+                    texts.push((Kind::DT, "DD HH24:MI:SS.FF".into(), format!("{sign}{d} {h:02}:{mi:02}:{se:02}.{f}")));
+                    texts.push((Kind::DT, "HH24:MI:SS.FF DD".into(), format!("{h:02}:{mi:02}:{se:02}.{f} {sign}{d}")));
+                    texts.push((Kind::DT, "FF SS MI HH24 DD".into(), format!("{f} {se} {mi} {h} {sign}{d}")));
+                    texts.push((Kind::DT, "SS.FF DD HH24:MI".into(), format!("{sign}{se:02}.{f} {d} {h:02}:{mi:02}")));
+                }
+            }
+        }
+        for (k, (kind, pic, text)) in texts.iter().enumerate() {
+            st.evaluations += 1;
+            st.nontrivial_enum += 1;
+            st.class("interval-limit-text-in-another-field-order");
+            if let Err(m) = check_parse_range(*kind, pic, text) {
+                st.fail(k as u64, Case::new(P, "parse", vec![kind.index() as i128], vec![pic.to_string(), text.to_string()]), m);
+            }
+        }
+    }
     for kind in KINDS {
         let s = pt_run(
             &format!("C02/parse/{}", kind.name()),
@@ -560,7 +594,7 @@ pub fn run(ctx: &Ctx) -> (Stats, Report) {
     st.section("scaling_at_the_limits", &mut mark);
 
     let rep = Report {
-        rule: format!("Operation table of {} safe public functions (constructors from fields and raw counts, conversions, the whole add/sub family, negation, mul/div by f64, 12 trunc + 12 round on three types, last_day_of_month, extract, Oracle-style operations) x cross products of boundary+seeded operand pools (first operand full pool, later operands small pools / extreme scalars incl. i32::MIN, u32::MAX, NaN, infinities), plus proptest-generated operands per unary/binary row. Oracle: every returned value (also each half of an extracted pair) satisfies the range predicate of its type (whole seconds for the Oracle-style date); rows with an exact integer model must return Ok(exact) iff the exact value is in range (no wrap, no clamp); month arithmetic must match the month model or fail. Parse: speller-built texts at, near and past the range edges must give Err or an in-range value. Deserialize: integers of every width (i8..u128, via serde's de::value deserializers) at the limits and shifted by multiples of 2^8..2^64 must give Err or exactly the in-range value they denote. Scaling: every pool interval x factors tuned to the range limit (limit / x, (limit +- 1) / x, bit neighbours, both signs, mul and div) must give Err or an in-range value. The public MIN / MAX / ZERO constants of all six types equal the documented limits. Clock: now() / try_from(Time) with the injected clock inside a leap second on boundary dates and both range ends must give Err or an in-range value; so must they, and parses of partial pictures, with the injected clock outside the supported range altogether (years 0, -1, ... -262142, 10000 ... 262141). Non-trivial = result within one unit period of a range edge, or an error outcome; distinct by (row, operands).", ops.len()),
+        rule: format!("Operation table of {} safe public functions (constructors from fields and raw counts, conversions, the whole add/sub family, negation, mul/div by f64, 12 trunc + 12 round on three types, last_day_of_month, extract, Oracle-style operations) x cross products of boundary+seeded operand pools (first operand full pool, later operands small pools / extreme scalars incl. i32::MIN, u32::MAX, NaN, infinities), plus proptest-generated operands per unary/binary row. Oracle: every returned value (also each half of an extracted pair) satisfies the range predicate of its type (whole seconds for the Oracle-style date); rows with an exact integer model must return Ok(exact) iff the exact value is in range (no wrap, no clamp); month arithmetic must match the month model or fail. Parse: speller-built texts at, near and past the range edges, and interval texts at the limits with their fields in every order, must give Err or an in-range value. Deserialize: integers of every width (i8..u128, via serde's de::value deserializers) at the limits and shifted by multiples of 2^8..2^64 must give Err or exactly the in-range value they denote. Scaling: every pool interval x factors tuned to the range limit (limit / x, (limit +- 1) / x, bit neighbours, both signs, mul and div) must give Err or an in-range value. The public MIN / MAX / ZERO constants of all six types equal the documented limits. Clock: now() / try_from(Time) with the injected clock inside a leap second on boundary dates and both range ends must give Err or an in-range value; so must they, and parses of partial pictures, with the injected clock outside the supported range altogether (years 0, -1, ... -262142, 10000 ... 262141). Non-trivial = result within one unit period of a range edge, or an error outcome; distinct by (row, operands).", ops.len()),
         assumptions: vec!["operands are in-range values (built through the checked constructors); scalar arguments are unrestricted".into()],
         exhaustive: false,
         extra: Default::default(),
